@@ -88,6 +88,9 @@ def make_program(parts):
 
 
 COLLISION_PROBES = [
+    # a variable that shadows a builtin, referenced (as the builtin) before it is assigned
+    "print(type(1).__name__)\nfirst, *type = 1, 2, 3\nprint(first, type)\n",
+    "print(len('ab'))\n\n\ndef run():\n    print(max(1, 2))\n    return 1\n\n\nrun()\nmax = run()\nlen = 3\nprint(max, len)\n",
     # a name whose conventional spelling is already taken by a name that stays as it is: the rename must not happen (or must not capture)
     "def run():\n    foo_bar = 1\n    fooBar = 2\n    print(foo_bar, fooBar)\n\n\nrun()\n",
     "def run():\n    Max = 3\n    print(Max, max(1, 2))\n\n\nrun()\n",
